@@ -1147,4 +1147,45 @@ theorem Spec.replay_all (now : Int) (L : List Spec.Rec) (g : Grant) (q : Path) (
 theorem Spec.inWindow_open (now : Int) (h : 0 ≤ now) : Spec.inWindow now (0, 0) = true := by
   simp [Spec.inWindow, h]
 
+/-- `replay_history_exact` read on the PUBLISH packets alone: the PUBLISH packets the step emits —
+to anybody — are exactly the replay, all addressed to the subscriber, and the last packet of the
+step is the SUBACK -/
+theorem replay_history_pubs (auth : Auth) (b₀ : B) (h0 : Pristine b₀) (hst : StoreWF b₀.store)
+    (evs : List Spec.Ev) (hwf : Spec.wellFormed evs = true)
+    (now : Int) (name : String) (mid : UInt16) (topic : Bytes) (qos : UInt8) (g : Grant)
+    (hopen : (Spec.runStore auth (Spec.initStore b₀) evs).isOpen name = true)
+    (hacc : Spec.acceptedSub auth (Spec.runStore auth (Spec.initStore b₀) evs).banned topic = some g)
+    (hwin : Spec.inWindow now (parseChannel (fixTopic topic)).window = true) :
+    let out := (step auth (run auth b₀ evs) name (.subscribe mid topic qos)).2
+    out.filter isPub =
+      (Spec.replayFor auth now (Spec.runStore auth (Spec.initStore b₀) evs) topic).map
+        (fun m => (name, Pkt.pub m.channel m.payload)) ∧
+    out.getLast? = some (name, .suback mid [qos]) := by
+  intro out
+  obtain ⟨⟨notes, hn, hout⟩, _, hrf, _, _⟩ :=
+    replay_history_exact auth b₀ h0 hst evs hwf now name mid topic qos g hopen hacc hwin
+  have hout' : out = notes ++ (Spec.replayFor auth now (Spec.runStore auth (Spec.initStore b₀) evs) topic).map
+      (fun m => (name, Pkt.pub m.channel m.payload)) ++ [(name, .suback mid [qos])] := by
+    rw [hrf]; exact hout
+  rw [hout']
+  refine ⟨?_, List.getLast?_concat⟩
+  rw [List.filter_append, List.filter_append]
+  have h1 : notes.filter isPub = [] := by
+    rw [List.filter_eq_nil_iff]
+    intro e he
+    obtain ⟨t, f, hj⟩ := hn e he
+    obtain ⟨n, p⟩ := e
+    simp only at hj
+    subst hj
+    simp [isPub]
+  have h2 : ∀ l : List Spec.Rec, (l.map (fun m => (name, Pkt.pub m.channel m.payload))).filter isPub =
+      l.map (fun m => (name, Pkt.pub m.channel m.payload)) := by
+    intro l
+    rw [List.filter_eq_self]
+    intro e he
+    obtain ⟨m, _, rfl⟩ := List.mem_map.1 he
+    rfl
+  rw [h1, h2]
+  simp [isPub]
+
 end Emitter.Broker
